@@ -258,6 +258,29 @@ def main():
     out = []
     R = Rec(F, out)
     skipped = []
+    # warm-up: every simple type is used once, base types before the types that restrict them, so that the probes
+    # below see a process in which class-level state of all types exists (a driver-side choice of history)
+    import value_battery as VB
+    S = VB.slots(F.J)
+    decl = F.J.get('stdecl', {})
+
+    def depth(st, seen=()):
+        b = decl.get(st, {}).get('base', '')
+        return 0 if (not b or b in seen or b not in F.J['st']) else 1 + depth(b, seen + (st,))
+    for st in sorted(S, key=lambda x: (depth(x), x)):
+        kind, elem, an = S[st]
+        try:
+            with contextlib.redirect_stdout(io.StringIO()):
+                cls, value, kwargs, kids = F.plan(elem, lenient=True)
+                v = F.value(st)
+                if kind == 'text':
+                    cls(v, **kwargs)
+                else:
+                    kw = dict(kwargs)
+                    kw[an.replace('-', '_')] = v
+                    cls(value, **kw) if value != '' else cls(**kw)
+        except Exception:   # noqa
+            pass
     for name in job['elems']:
         try:
             F.mk(name, lenient=True)
